@@ -664,7 +664,16 @@ def run_property(prop, tier, jobs, only, keep, seed):
                         exit_code = max(exit_code, 2)
                         replayed[ckey] = (False, cpath, "")
                     continue
-                test_src = concrete_playback(work, spec)
+                test_src = None if spec.get("fallback_playback") else concrete_playback(work, spec)
+                if spec.get("fallback_playback"):
+                    # Kani's trace run can exceed memory where the verification run (sliced) takes a second (measured:
+                    # 84M variables, > 24 GB for the 10 MiB BufReader of DltMessageReader::new); for harnesses whose
+                    # only symbolic inputs range over a tiny domain the registry lists the complete set of input
+                    # vectors and each is replayed natively instead of asking Kani for a trace
+                    fn = spec["name"].split("::")[-1]
+                    test_src = "\n".join(
+                        f"#[test]\nfn kani_concrete_playback_fallback_{fn}_{i}() {{\n    let concrete_vals: Vec<Vec<u8>> = vec![{', '.join('vec![' + ', '.join(str(b) for b in v) + ']' for v in vals)}];\n"
+                        f"    kani::concrete_playback_run(concrete_vals, {fn});\n}}\n" for i, vals in enumerate(spec["fallback_playback"]))
                 case = {"property": prop, "harness": r["harness"], "failed_checks": unknown, "tier": tier,
                         "playback_test": test_src, "mem_checks": spec.get("mem_checks", False), "timeout": spec.get("timeout", 600)}
                 os.makedirs(CASES, exist_ok=True)
@@ -698,6 +707,9 @@ def run_property(prop, tier, jobs, only, keep, seed):
             write_evidence(prop, tier, seed, pdef, results, extra, time.time() - t0, violations)
         finally:
             work.close()
+    if violations > 0:
+        # a natively reproduced violation is a verdict even if other harnesses were inconclusive
+        exit_code = 1
     npass = sum(1 for r in results if r["status"] in ("PASS", "KNOWN"))
     log(f"[{prop}] tier={tier}: {npass}/{len(results)} harnesses ok, exit {exit_code}, {time.time() - t0:.0f}s")
     return exit_code
